@@ -400,6 +400,10 @@ def memo_key(body, blocks, t, depth=0, path=None):
     if k in ("field", "variant"):
         c = memo_key(body, blocks, t[1], depth + 1, path)
         return None if c is None else (k, c, t[2])
+    if k == "discr" and isinstance(t[1], tuple) and t[1][0] == "call" and isinstance(t[1][1], str) and \
+            t[1][1].endswith("<std::result::Result<T, E> as std::ops::Try>::branch") and len(t[1][2]) == 1:
+        # `r?` re-tests r: Ok = 0 -> Continue = 0, Err = 1 -> Break = 1, so the decision is the one about r itself
+        return memo_key(body, blocks, ("discr", t[1][2][0]), depth + 1, path)
     if k in ("okpayload", "somepayload", "errpayload", "errresidual", "discr"):
         c = memo_key(body, blocks, t[1], depth + 1, path)
         return None if c is None else (k, c)
